@@ -220,6 +220,8 @@ pub fn block(name: &str, c: &AlphaCtx, out: &mut Vec<Op>) {
             out.push(Op::k(OpK::IterMutWrite));
         }
         "fill" => out.push(Op::k(OpK::FillToCap)),
+        // PathBuf keys queried as &Path in several spellings, on a mirror of the current contents
+        "borrow" => out.push(Op::k(OpK::BorrowProbe)),
         "iter" => {
             for kind in 0..IK_COUNT {
                 out.push(Op::arg(OpK::IterCheck, kind | 1 << 8));
@@ -471,5 +473,5 @@ pub fn by_name(name: &str) -> Box<dyn Fn(&AlphaCtx) -> Vec<Op>> {
 
 /// Ops whose successor is checked but not expanded further (they leave the key universe).
 pub fn is_probe(op: Op) -> bool {
-    matches!(op.k, OpK::FillToCap)
+    matches!(op.k, OpK::FillToCap | OpK::BorrowProbe)
 }
